@@ -33,12 +33,16 @@ type c10Case struct {
 	// LogoutErr: the backend's Logout returns an error (it has nobody to
 	// report it to; nothing may depend on it)
 	LogoutErr bool `json:"logout_err,omitempty"`
+	// Limit: MaxMessageBytes (0 none). The plaintext chunk of the "bdat"
+	// state has 5 octets, the TLS-side messages 0, 6 or 10: with a limit of 10
+	// each fits on its own, but not on top of what was counted in plaintext.
+	Limit int64 `json:"limit,omitempty"`
 }
 
 func c10Run(c c10Case) Verdict {
 	lmtp := c.LMTP
 	g := greetWord(lmtp)
-	cfg := harness.Config{LMTP: lmtp, TLS: c.TLS, AllowInsecureAuth: true}
+	cfg := harness.Config{LMTP: lmtp, TLS: c.TLS, AllowInsecureAuth: true, MaxMessageBytes: c.Limit}
 	script := harness.Script{AuthSession: true, Mechs: []string{"PLAIN"}, LMTPSession: lmtp,
 		SASL: []harness.SASLScript{{SkipChallengesWithIR: true}, {SkipChallengesWithIR: true}, {SkipChallengesWithIR: true}}}
 	if c.GateDel {
@@ -148,7 +152,11 @@ func c10Run(c c10Case) Verdict {
 		case "EHLO":
 			line = g + " tlsname"
 		}
-		out, st := w.Exchange([]byte(line + "\r\n"))
+		wire := line + "\r\n"
+		if p == "BDAT 6 LAST" {
+			wire += "tlsmsg"
+		}
+		out, st := w.Exchange([]byte(wire))
 		prs, perr := harness.ParseReplies(out)
 		wantN := 1
 		if lmtp && nrcpt > 1 && strings.HasPrefix(p, "BDAT") {
@@ -198,7 +206,26 @@ func c10Run(c c10Case) Verdict {
 				if rp.Code != 354 {
 					return fail(failf("probe-reply", "DATA inside TLS with recipients answered %s", rp))
 				}
-				w.Exchange([]byte("tls body\r\n.\r\n"))
+				fo, _ := w.Exchange([]byte("tls body\r\n.\r\n"))
+				frs, ferr := harness.ParseReplies(fo)
+				wantF := 1
+				if lmtp {
+					wantF = nrcpt
+				}
+				if ferr != nil || len(frs) != wantF {
+					return fail(failf("probe-reply", "message inside TLS: %d final replies expected, got %v %v", wantF, codes(frs), ferr))
+				}
+				for _, fr := range frs {
+					if fr.Code != 250 {
+						return fail(failf("remembered-transfer", "a message sent inside TLS with a complete TLS-side envelope was answered %s: something of the plaintext transfer is remembered", fr))
+					}
+				}
+			} else {
+				for _, fr := range prs {
+					if fr.Code != 250 {
+						return fail(failf("remembered-transfer", "%s inside TLS with a complete TLS-side envelope was answered %s: something of the plaintext transfer (octet count, recipient statuses) is remembered", p, fr))
+					}
+				}
 			}
 			txn, nrcpt = false, 0
 		case strings.HasPrefix(p, "AUTH"):
@@ -270,9 +297,20 @@ func c10Gen(t *rapid.T) c10Case {
 	for i, n := 0, rapid.IntRange(0, 5).Draw(t, "nsfx"); i < n; i++ {
 		c.Suffix = append(c.Suffix, rapid.SampledFrom(inj).Draw(t, "sfx"))
 	}
-	probes := []string{"EHLO", "MAIL FROM:<tls@x>", "RCPT TO:<tlsr@x>", "DATA", "BDAT 0 LAST", "AUTH PLAIN AHUAcHc=", "STARTTLS", "NOOP"}
+	probes := []string{"EHLO", "MAIL FROM:<tls@x>", "RCPT TO:<tlsr@x>", "DATA", "BDAT 0 LAST", "BDAT 6 LAST", "AUTH PLAIN AHUAcHc=", "STARTTLS", "NOOP"}
+	if rapid.Bool().Draw(t, "guided_probes") {
+		// a complete transaction inside TLS, then anything
+		c.Probes = []string{"EHLO", "MAIL FROM:<tls@x>", "RCPT TO:<tlsr@x>"}
+		if rapid.Bool().Draw(t, "two_rcpts") {
+			c.Probes = append(c.Probes, "RCPT TO:<tlsr@x>")
+		}
+		c.Probes = append(c.Probes, rapid.SampledFrom([]string{"DATA", "BDAT 0 LAST", "BDAT 6 LAST", "BDAT 6 LAST"}).Draw(t, "deliver"))
+	}
 	for i, n := 0, rapid.IntRange(0, 7).Draw(t, "nprobes"); i < n; i++ {
 		c.Probes = append(c.Probes, rapid.SampledFrom(probes).Draw(t, "probe"))
+	}
+	if rapid.IntRange(0, 2).Draw(t, "limit") == 0 {
+		c.Limit = 10
 	}
 	return c
 }
